@@ -637,7 +637,10 @@ class GibbsTempo(BaseAPIClass):
                 self._dynamics.add(self._time(ii), state)
             #  dynamics now has three entries including initial state
 
-        num_step = self._parameters.n_steps - 2
+        # initialising leaves the backend at step 1; the last step is
+        # n_steps - 1, so a repeated call has nothing left to do
+        num_step = max(
+            0, self._parameters.n_steps - 1 - self._backend_instance.step)
 
         progress = get_progress(progress_type)
         title = "--> GibbsTEMPO computation:"
